@@ -267,6 +267,10 @@ class ParamsGenerator:
           tfl_flatbuffer_utils.get_tensor_name(first_tensor)
       ]
       for tensor in tensors[1:]:
+        if tensor is first_tensor:
+          # The same tensor is listed once per op that touches it; consumers
+          # of one tensor may legitimately need different parameters.
+          continue
         tensor_params = self.model_quant_results[
             tfl_flatbuffer_utils.get_tensor_name(tensor)
         ]
